@@ -24,8 +24,8 @@ def one(args):
       lines = [l.strip()[:200] for l in c.stdout.splitlines() if re.match(r'\s+R-|ANALYSIS', l)]
       if c.returncode == 1:
         alarms[q] = lines[:4]
-      elif c.returncode != 0:
-        incs[q] = lines[:4]
+      elif c.returncode != 0 or 'NOT-DECIDED' in c.stdout:
+        incs[q] = [l.strip()[:200] for l in c.stdout.splitlines() if l.startswith(('NOT-DECIDED', 'ANALYSIS'))][:4]
     return p, n, 'ok', alarms, incs
   finally:
     shutil.rmtree(scratch, ignore_errors=True)
